@@ -444,3 +444,14 @@ pub proof fn theorem_parse_lib_canonical(pre: GdsParser, post: GdsParser, x: Gds
     }
     theorem_lib_inversion(x, tr, cc, ss, l0, u0, u1);
 }
+/// THEOREM (C01, write-then-read, partial correctness): if the independent decoder `cstream` reads exactly the canonical records of `lib` from the
+/// parser's bytes — what `GdsWriter::write_lib` guarantees for the bytes it produced (unit gds_tree: `cstream(bytes) == lib_c(lib)`) — then a parser
+/// created on those bytes by `GdsParser::new` (stream position 1) that returns a library from `parse_lib` returns `lib`
+pub proof fn theorem_write_then_read(pre: GdsParser, post: GdsParser, x: GdsLibrary, lib: GdsLibrary, u0: f64, u1: f64)
+    requires cstream(pre.rdr.source.data@) == lib_c(lib), at(pre, 1), parse_lib_post(pre, post, x), post.rdr.source.data@ == pre.rdr.source.data@,
+        lib.units.0 == u0, lib.units.1 == u1,
+    ensures lib_same(x, lib),
+{
+    assert(pcs(pre).subrange(0, lib_c(lib).len() as int) =~= lib_c(lib));
+    theorem_parse_lib_canonical(pre, post, x, lib, u0, u1);
+}
